@@ -4,6 +4,7 @@ usage: twins.py SCENARIOS.json TRACES.json"""
 import asyncio
 import gc
 import json
+import zlib
 import logging
 import sys
 
@@ -91,7 +92,7 @@ def throwaway(kind, shape):
 
 
 def run(n, scn, loop):
-    kind = 'async' if n % 2 else 'sync'
+    kind = 'async' if zlib.crc32(json.dumps(scn, sort_keys=True).encode()) % 2 else 'sync'    # by content, not by position
     d = build(kind)
     ev = []
     for c in scn['hist']:
